@@ -99,6 +99,11 @@ func getArrayPrototype() *Value {
 					}
 
 					for _, item := range this.Array {
+						if v[0].Tag == ValueUnknown || item.Value.Tag == ValueUnknown {
+							// like ==, which is false for a value that was never
+							// assigned
+							continue
+						}
 						comp, err := v[0].Compare(&item.Value)
 						if err != nil {
 							return nil, err
